@@ -14,6 +14,14 @@ use std::collections::HashSet;
 use target_actor::{ActorId, ActorInputMessage, ExecutionKind, TargetActorOutputMessage};
 pub use target_actors::TargetActors;
 
+/// Verification hook (off unless built with `--cfg zinoma_verif`): lets the simulation's channel
+/// shim print the messages exchanged by the actors.
+#[cfg(zinoma_verif)]
+pub fn register_verif_message_formats() {
+    async_std::channel::register_debug::<ActorInputMessage>();
+    async_std::channel::register_debug::<TargetActorOutputMessage>();
+}
+
 pub async fn run(
     root_target_ids: Vec<TargetId>,
     watch_option: WatchOption,
